@@ -8002,9 +8002,7 @@ fn compare_wire_values(a: Option<&WireValue>, b: Option<&WireValue>) -> std::cmp
         (Some(va), Some(vb)) => match (va, vb) {
             (WireValue::Int64(a), WireValue::Int64(b)) => a.cmp(b),
             (WireValue::Int32(a), WireValue::Int32(b)) => a.cmp(b),
-            (WireValue::Float64(a), WireValue::Float64(b)) => {
-                a.partial_cmp(b).unwrap_or(std::cmp::Ordering::Equal)
-            }
+            (WireValue::Float64(a), WireValue::Float64(b)) => cmp_f64_for_sort(*a, *b),
             (WireValue::String(a), WireValue::String(b)) => a.cmp(b),
             (WireValue::Bool(a), WireValue::Bool(b)) => a.cmp(b),
             (WireValue::Timestamp(a), WireValue::Timestamp(b)) => a.cmp(b),
@@ -8012,12 +8010,8 @@ fn compare_wire_values(a: Option<&WireValue>, b: Option<&WireValue>) -> std::cmp
             (WireValue::Null, _) => std::cmp::Ordering::Less,
             (_, WireValue::Null) => std::cmp::Ordering::Greater,
             // Cross-type numeric comparison
-            (WireValue::Int64(a), WireValue::Float64(b)) => (*a as f64)
-                .partial_cmp(b)
-                .unwrap_or(std::cmp::Ordering::Equal),
-            (WireValue::Float64(a), WireValue::Int64(b)) => a
-                .partial_cmp(&(*b as f64))
-                .unwrap_or(std::cmp::Ordering::Equal),
+            (WireValue::Int64(a), WireValue::Float64(b)) => cmp_i64_f64(*a, *b),
+            (WireValue::Float64(a), WireValue::Int64(b)) => cmp_i64_f64(*b, *a).reverse(),
             // Cross-type: use type discriminant for stable ordering
             _ => wire_value_type_rank(va).cmp(&wire_value_type_rank(vb)),
         },
@@ -8045,6 +8039,49 @@ pub fn verif_apply_pagination(
     offset: Option<usize>,
 ) -> Vec<WireTuple> {
     apply_pagination(rows, limit, offset)
+}
+
+/// Total preorder on floats for sorting: numeric order, `-0.0 == 0.0`, and NaN
+/// sorts after every number (all NaNs compare equal). `sort_by` requires a total
+/// order; `partial_cmp(..).unwrap_or(Equal)` is not one (NaN would equal everything).
+fn cmp_f64_for_sort(a: f64, b: f64) -> std::cmp::Ordering {
+    match (a.is_nan(), b.is_nan()) {
+        (true, true) => std::cmp::Ordering::Equal,
+        (true, false) => std::cmp::Ordering::Greater,
+        (false, true) => std::cmp::Ordering::Less,
+        (false, false) => a.partial_cmp(&b).unwrap_or(std::cmp::Ordering::Equal),
+    }
+}
+
+/// Exact comparison of an integer with a float, consistent with `cmp_f64_for_sort`.
+/// Converting the integer to f64 would round above 2^53 and make distinct integers
+/// compare equal to the same float, which breaks transitivity.
+fn cmp_i64_f64(a: i64, b: f64) -> std::cmp::Ordering {
+    use std::cmp::Ordering;
+    if b.is_nan() {
+        return Ordering::Less; // NaN sorts last
+    }
+    if b >= 9_223_372_036_854_775_808.0 {
+        return Ordering::Less;
+    }
+    if b < -9_223_372_036_854_775_808.0 {
+        return Ordering::Greater;
+    }
+    // b is within [-2^63, 2^63): its truncation fits in an i64 and converts back exactly
+    let truncated = b as i64;
+    match a.cmp(&truncated) {
+        Ordering::Equal => {
+            let frac = b - (truncated as f64);
+            if frac > 0.0 {
+                Ordering::Less
+            } else if frac < 0.0 {
+                Ordering::Greater
+            } else {
+                Ordering::Equal
+            }
+        }
+        other => other,
+    }
 }
 
 /// Assign a rank to each WireValue variant for stable cross-type ordering.
